@@ -16,6 +16,7 @@ from . import build, explore, diffcorpus
 from .replay import run_native, native_obs
 
 VERIF = os.path.dirname(os.path.dirname(os.path.abspath(__file__)))
+OUT = os.environ.get('VERIF_OUT') or VERIF      # evidence/ and replays/ live here (scratch runs against seeded changes redirect it)
 REPO = os.environ.get('VERIF_REPO', '/repo')
 
 
@@ -131,14 +132,14 @@ class Run:
         s.evidence['coverage']['known_findings_reported'] = [k['key'] for k in known_hits]
         if not cov['samples']:
             cov['samples'] = ['(no sample recorded)']
-        os.makedirs(os.path.join(VERIF, 'evidence'), exist_ok=True)
-        with open(os.path.join(VERIF, 'evidence', s.pid + '.json'), 'w') as f:
+        os.makedirs(os.path.join(OUT, 'evidence'), exist_ok=True)
+        with open(os.path.join(OUT, 'evidence', s.pid + '.json'), 'w') as f:
             json.dump(s.evidence, f, indent=1, default=str)
         if s.pool:
             s.pool.close()
 
     def write_replay(s, violation):
-        d = os.path.join(VERIF, 'replays', s.pid)
+        d = os.path.join(OUT, 'replays', s.pid)
         os.makedirs(d, exist_ok=True)
         import hashlib
         h = hashlib.sha1(json.dumps(violation, sort_keys=True, default=str).encode()).hexdigest()[:12]
